@@ -7,6 +7,7 @@ import Clover.Proofs.ReadsExact
 import Clover.Proofs.RefineFaults
 import Clover.Proofs.SpecWF
 import Clover.Proofs.RefineAnyPlan
+import Clover.Proofs.RefineAnyPlanFaults
 /-! # C01 — queries return exactly the documents that satisfy their criteria -/
 namespace CV.Props.C01
 open CV
@@ -144,6 +145,17 @@ theorem states_refine_any_plan (ops : List Op) (hok : ∀ op ∈ ops, OpOK op) (
       (modelRun likeFn fnFam ops {}).1.map Res.isErr = (specRun likeFn fnFam ops []).1.map Res.isErr := by
   obtain ⟨h1, h2, _⟩ := refine_states_from_empty likeFn fnFam ops hok hdom
   exact ⟨h1, h2, refine_errs_any_plan likeFn fnFam ops hok [] {} rfl wf_empty rep_empty hdom⟩
+
+/-- **… and under arbitrary fault schedules**: in any history in which every call runs under its own fault
+    schedule and the calls that were not hit are in the domain above, a call hit by a fault returns an error and
+    changes nothing (it did not happen), every other call fails iff the specification's call fails, and at the end
+    the store represents the specification's state — whatever plans served the calls. -/
+theorem states_refine_any_plan_under_faults (h : List (Op × Faults)) (hok : ∀ x ∈ h, OpOK x.1)
+    (hdom : AllInDomainF likeFn fnFam h {} []) :
+    (∀ x ∈ (lockstep likeFn fnFam h {} []).1, CallAgreesState x) ∧
+      Rep (lockstep likeFn fnFam h {} []).2.2 (lockstep likeFn fnFam h {} []).2.1.kv ∧
+      WF (lockstep likeFn fnFam h {} []).2.2 :=
+  refine_states_any_plan_from_empty_faults likeFn fnFam h hok hdom
 
 /-- the domain of `states_refine_any_plan` contains every history of `refine_history` -/
 theorem determined_histories_are_in_domain (ops : List Op) (s : Spec.State) (h : AllDetermined likeFn fnFam ops s) :
